@@ -671,6 +671,29 @@ fn tenc_t<T: V + Encode<()> + CborLen<()>>(val: &str) -> String {
     }
 }
 
+/// `tretry <type> <value>`: ONE object encoded again and again, failed attempts in between (slices that end after 0, 1, 2, .. bytes, at
+/// every cut up to 24 and at len-1): `same <hex>` when every complete encoding of the object equals the first and every short slice was
+/// refused, else what differed.  (Values with interior mutability — Cell, RefCell, atomics — are where an attempt could leave a trace.)
+fn tretry_t<T: V + Encode<()> + CborLen<()>>(val: &str) -> String {
+    let mut p = P::new(val);
+    let v = match T::parse(&mut p) { Some(v) if p.done() => v, _ => return "bad-op".into() };
+    let first = match minicbor::to_vec(&v) { Ok(b) => b, Err(e) => return format!("err {}", eclass(&e)) };
+    let n = first.len();
+    let mut cuts: Vec<usize> = (0 .. n.min(24)).collect();
+    if n > 0 { cuts.push(n - 1) }
+    for c in cuts {
+        let mut buf = vec![0u8; c];
+        if minicbor::encode(&v, &mut buf[..]).is_ok() { return format!("short-accepted cut={}", c) }
+        match minicbor::to_vec(&v) {
+            Ok(b) if b == first => {}
+            Ok(b) => return format!("diff cut={} {} was {}", c, hex(&b), hex(&first)),
+            Err(e) => return format!("err-after cut={} {}", c, eclass(&e))
+        }
+        if minicbor::len(&v) != n { return format!("len-diff cut={} {}", c, minicbor::len(&v)) }
+    }
+    format!("same {}", hex(&T::canon(first)))
+}
+
 fn tdec_t<T: V + Decode<'static, ()>>(h: &str) -> String {
     let input = match unhex(h) { Some(b) => arena_put(b), None => return "bad-op".into() };
     let mut d = Decoder::new(input);
@@ -686,14 +709,14 @@ fn rustname(s: &str) -> String {
     s.chars().filter(|c| !c.is_whitespace()).collect::<String>().replace("'static,", "").replace("'static", "")
 }
 
-pub struct Entry { pub name: String, pub desc: String, pub gdesc: String, pub flags: &'static str, enc: fn(&str) -> String, dec: fn(&str) -> String }
+pub struct Entry { pub name: String, pub desc: String, pub gdesc: String, pub flags: &'static str, enc: fn(&str) -> String, dec: fn(&str) -> String, retry: fn(&str) -> String }
 
 macro_rules! registry {
     ($( $(#[$flag:ident])? $t:ty;)*) => {
         pub fn registry() -> Vec<Entry> { vec![$( registry!(@entry $($flag)? ; $t) ),*] }
     };
-    (@entry ; $t:ty) => { Entry { name: rustname(stringify!($t)), desc: <$t as V>::desc(false), gdesc: <$t as V>::desc(true), flags: "-", enc: tenc_t::<$t>, dec: tdec_t::<$t> } };
-    (@entry enconly ; $t:ty) => { Entry { name: rustname(stringify!($t)), desc: <$t as V>::desc(false), gdesc: <$t as V>::desc(true), flags: "enconly", enc: tenc_t::<$t>, dec: no_dec } };
+    (@entry ; $t:ty) => { Entry { name: rustname(stringify!($t)), desc: <$t as V>::desc(false), gdesc: <$t as V>::desc(true), flags: "-", enc: tenc_t::<$t>, dec: tdec_t::<$t>, retry: tretry_t::<$t> } };
+    (@entry enconly ; $t:ty) => { Entry { name: rustname(stringify!($t)), desc: <$t as V>::desc(false), gdesc: <$t as V>::desc(true), flags: "enconly", enc: tenc_t::<$t>, dec: no_dec, retry: tretry_t::<$t> } };
 }
 
 type Big16 = (u8, u16, u32, u64, i8, i16, i32, i64, bool, char, String, (), Option<u8>, Vec<u8>, Int, Tag);
@@ -759,20 +782,21 @@ registry! {
     Duration; SystemTime; Ipv4Addr; Ipv6Addr; IpAddr; SocketAddrV4; SocketAddrV6; SocketAddr;
 }
 
-thread_local! { static REG: HashMap<String, (fn(&str) -> String, fn(&str) -> String)> =
-    registry().into_iter().map(|e| (e.name, (e.enc, e.dec))).collect(); }
+thread_local! { static REG: HashMap<String, (fn(&str) -> String, fn(&str) -> String, fn(&str) -> String)> =
+    registry().into_iter().map(|e| (e.name, (e.enc, e.dec, e.retry))).collect(); }
 
 /// `hcore tlist`: `<rustname> <desc> <gendesc> <flags>` per registered instantiation.
 pub fn tlist() {
     for e in registry() { println!("{} {} {} {}", e.name, e.desc, e.gdesc, e.flags) }
 }
 
-pub fn run_enc(w: &[&str]) -> String { run(w, true) }
-pub fn run_dec(w: &[&str]) -> String { run(w, false) }
+pub fn run_enc(w: &[&str]) -> String { run(w, 0) }
+pub fn run_dec(w: &[&str]) -> String { run(w, 1) }
+pub fn run_retry(w: &[&str]) -> String { run(w, 2) }
 
-fn run(w: &[&str], enc: bool) -> String {
+fn run(w: &[&str], which: u8) -> String {
     if w.len() != 2 { return "bad-op".into() }
-    let f = match REG.with(|r| r.get(w[0]).copied()) { Some((e, d)) => if enc { e } else { d }, None => return "bad-op".into() };
+    let f = match REG.with(|r| r.get(w[0]).copied()) { Some((e, d, t)) => match which { 0 => e, 1 => d, _ => t }, None => return "bad-op".into() };
     arena_clear();
     let r = f(w[1]);
     arena_clear();
